@@ -257,11 +257,11 @@ def chunkRelativeFrames (k : ChunkCDS) : R (List CDSFrame) := do
 
 /-! ### transcripts -/
 
-/-- `TranscriptInterval.__init__` (transcript.py:72-155): exon location, CDS validation, the CDS (dropped when its
-    construction raises LocationOverlapException), digest members -/
-def mkTx (t : TxD) (p : Par) (depth : Nat) : R (List Node) := do
-  let loc ← initializeLocation t.exons t.st p
-  let cds ← (if t.cds.isEmpty then pure none else do
+/-- the CDS part of `TranscriptInterval.__init__` (transcript.py:86-118): validation against the exon bounds, then
+    the CDSInterval on the same parent — dropped when its construction raises LocationOverlapException.
+    `none` = non-coding, `some none` = coding but dropped, `some (some n)` = the CDS node -/
+def txCds (t : TxD) (p : Par) (depth : Nat) : R (Option (Option Node)) :=
+  if t.cds.isEmpty then pure none else do
     let (cs, ce) ← firstLast (t.cds.map (·.1))
     let (es, ee) ← firstLast t.exons
     if cs < es then throw .InvalidCDSInterval
@@ -269,7 +269,12 @@ def mkTx (t : TxD) (p : Par) (depth : Nat) : R (List Node) := do
     match mkCdsNode t.cdsD p (depth + 1) with
     | .error .LocationOverlap => pure (some none)          -- `except LocationOverlapException: self.cds = None`
     | .error e => throw e
-    | .ok n => pure (some (some n)))
+    | .ok n => pure (some (some n))
+
+/-- `TranscriptInterval.__init__` (transcript.py:72-155): exon location, the CDS, digest members -/
+def mkTx (t : TxD) (p : Par) (depth : Nat) : R (List Node) := do
+  let loc ← initializeLocation t.exons t.st p
+  let cds ← txCds t p depth
   let (s, e) ← firstLast t.exons
   let chrom ← mkCompoundLoc t.exons t.st
   let coords := [Tok.nats (t.exons.map (·.1)), .nats (t.exons.map (·.2)), .strand t.st]
